@@ -342,6 +342,7 @@ type grpcClientConn struct {
 	responseTrailer  http.Header
 	readTrailers     func(*grpcUnmarshaler, *duplexHTTPCall) (http.Header, error)
 	receiveErr       error // the first error Receive returned, the end of the response included
+	receivedMessage  bool  // the response body carried at least one message
 }
 
 func (cc *grpcClientConn) Spec() Spec {
@@ -376,14 +377,17 @@ func (cc *grpcClientConn) Receive(msg any) error {
 }
 
 func (cc *grpcClientConn) receive(msg any) error {
+	receivedMessage := cc.receivedMessage
 	err := cc.unmarshaler.Unmarshal(msg)
 	if err == nil {
+		cc.receivedMessage = true
 		return nil
 	}
-	if cc.responseHeader.Get(grpcHeaderStatus) != "" {
+	if !receivedMessage && cc.responseHeader.Get(grpcHeaderStatus) != "" {
 		// We got what gRPC calls a trailers-only response, which puts the trailing
 		// metadata (including errors) into HTTP headers. validateResponse has
-		// already extracted the error.
+		// already extracted the error. A response that carried messages isn't
+		// trailers-only, whatever its headers say: it ends with trailers.
 		return err
 	}
 	// See if the server sent an explicit error in the HTTP or gRPC-Web trailers.
